@@ -1008,7 +1008,8 @@ func ruleEncryptSeesMarshalledHeader(c *Ctx, r *Report) {
 			return strings.HasSuffix(namedOrType(st.Val.Type()), "recordlayer.Header")
 		}
 		for _, al := range allocs {
-			w := &Walk{Fn: fn}
+			// the framing may sit in private helpers: they are followed
+			w := &Walk{Fn: fn, Follow: followSamePkgExcept(fn, "nextLocalSequenceNumber"), FollowDeferring: true}
 			// ... or the wire bytes are the record's own marshalling (its header is then the one
 			// on the wire by construction)
 			selfMarshal := func(in ssa.Instruction) bool {
@@ -1026,4 +1027,1619 @@ func ruleEncryptSeesMarshalledHeader(c *Ctx, r *Report) {
 		}
 	}
 	r.Floor(rule, n, 1)
+}
+
+// ruleALPNCommitMatchesWire (C01): like the connection IDs and the SRTP profile, the application
+// protocol a server records for the session is the one in the ServerHello it actually sends: every
+// function that finalises a ServerHello (a user hook may rewrite it) stores NegotiatedProtocol after
+// the finalisation, from the ALPN selection found in the finalised message (or the empty string).
+// A value recorded before the hook leaves the two sides with different protocols when the hook
+// drops or changes the extension.
+func ruleALPNCommitMatchesWire(c *Ctx, r *Report) {
+	const rule = "alpn-commit-matches-wire"
+	n := 0
+	for _, s := range c.CallsTo(nameIs("internal/negotiation.FinalizeServerHello")) {
+		fin, ok := s.Call.(*ssa.Call)
+		if !ok {
+			continue
+		}
+		fn := s.Fn
+		// only generators that deal with ALPN at all
+		if len(findCalls(fn, nameHasSuffix("extension.ALPNProtocolSelection"))) == 0 {
+			continue
+		}
+		n++
+		r.Sites += len(fn.Blocks)
+		after := 0
+		fromWire := true
+		var wire, other []ssa.Instruction
+		for _, st := range c.StoresTo(tCom, "NegotiatedProtocol") {
+			if st.Fn != fn || !instrDominates(fin, st.Instr) {
+				continue
+			}
+			after++
+			if k, isK := st.Val.(*ssa.Const); isK && k.Value != nil && k.Value.ExactString() == `""` {
+				other = append(other, st.Instr)
+				continue
+			}
+			if !allLeaves(c.Origins(st.Val, 0), func(l ssa.Value) bool {
+				o, f, _, okF := fieldLoad(l)
+				return okF && f == "Protocol" && strings.HasSuffix(o, "extension.ALPNSelection")
+			}) {
+				fromWire = false
+			} else {
+				wire = append(wire, st.Instr)
+			}
+		}
+		// the value taken from the wire is the last word: no reset can follow it
+		for _, w := range wire {
+			for _, o := range other {
+				if instrReaches(w, o) {
+					fromWire = false
+				}
+			}
+		}
+		if len(wire) == 0 {
+			fromWire = false
+		}
+		r.Check(after > 0 && fromWire, rule, short(fn), c.ipos(fin), "NegotiatedProtocol is committed after the ServerHello was finalised, from its ALPN selection", "the server records the negotiated application protocol before the ServerHello is finalised (a message hook may drop or change the ALPN extension) and never from the finalised message: both sides can report success with different protocols")
+	}
+	r.Floor(rule, n, 2)
+}
+
+// ruleAlertErrorNotMasked (C16): when a received record yields an error (the received fatal alert or
+// close_notify is such an error - it is what makes the read loop close the connection) and the
+// answer alert cannot be written either, the error reported is still the one of the received
+// record: with both failing, every return of the function hands back the first error.
+func ruleAlertErrorNotMasked(c *Ctx, r *Report) {
+	const rule = "alert-error-not-masked"
+	fn := c.need(r, rule, "(*dtls.Conn).processIncomingPacket")
+	if fn == nil {
+		return
+	}
+	r.Sites += len(fn.Blocks)
+	hs := findCalls(fn, nameIs("(*dtls.Conn).handleIncomingPacket"))
+	ns := findCalls(fn, nameIs("(*dtls.Conn).notify"))
+	if len(hs) != 1 || len(ns) == 0 {
+		r.Unk(rule, short(fn), c.pos(fn.Pos()), "expected one handleIncomingPacket call and a notify call")
+		return
+	}
+	first := errResult(hs[0])
+	w := &Walk{Fn: fn, Assume: func(v ssa.Value) (Val, bool) {
+		if v == first {
+			return vNil(false), true
+		}
+		for _, n := range ns {
+			if v == ssa.Value(n) {
+				return vNil(false), true
+			}
+		}
+		return unknown, false
+	}}
+	isNotifyErr := func(v ssa.Value) bool {
+		for _, n := range ns {
+			if v == ssa.Value(n) {
+				return true
+			}
+		}
+		return false
+	}
+	bad := ""
+	// what is examined for a received alert (errors.As) is the first error too
+	w.VisitRaw = func(in ssa.Instruction, _ Env, raw map[*ssa.Phi]ssa.Value) bool {
+		if call, ok := in.(*ssa.Call); ok && calleeName(&call.Call) == "errors.As" && len(call.Call.Args) > 0 {
+			if isNotifyErr(resolvePhis(call.Call.Args[0], raw)) {
+				bad = c.ipos(in)
+			}
+		}
+		return true
+	}
+	w.FromEntry()
+	for _, ro := range w.Returns {
+		last := len(ro.Raw) - 1
+		if last < 0 {
+			continue
+		}
+		if isNotifyErr(resolvePhis(ro.Raw[last], ro.RawEnv)) {
+			bad = c.ipos(ro.Ret)
+		}
+	}
+	r.Check(len(w.Returns) > 0 && bad == "", rule, short(fn), c.ipos(hs[0]), "the error of the received record is reported even when the answer alert cannot be written", "when the answer alert cannot be written its write error replaces the error of the received record ("+bad+"): a received close_notify or fatal alert then no longer closes the connection and Read returns the transport error instead of EOF")
+}
+
+// ruleTimerAfterStart (C17): the post-handshake retransmission timer of the finished state is taken
+// after queued commands were started: starting a command creates the flight whose deadline the
+// timer must carry. Taken before, a flight created in this round has no timer case in the select,
+// and under silence it is never retransmitted.
+func ruleTimerAfterStart(c *Ctx, r *Report) {
+	const rule = "post-handshake-timer-after-start"
+	fn := c.need(r, rule, "(*"+pkgHS+".fsm13).finish")
+	if fn == nil {
+		return
+	}
+	r.Sites += len(fn.Blocks)
+	var starts, timers []*ssa.Call
+	for _, u := range c.unitFuncs(fn) {
+		if u != fn {
+			continue
+		}
+		starts = append(starts, findCalls(u, nameHasSuffix("postHandshake).startQueuedPostHandshake"))...)
+		timers = append(timers, findCalls(u, nameHasSuffix("postHandshake).nextTimer"))...)
+	}
+	if len(starts) == 0 || len(timers) == 0 {
+		r.Unk(rule, short(fn), c.pos(fn.Pos()), "start of queued commands or timer computation not found")
+		return
+	}
+	good := true
+	for _, t := range timers {
+		dom := false
+		for _, s := range starts {
+			if instrDominates(s, t) {
+				dom = true
+			}
+		}
+		if !dom {
+			good = false
+		}
+	}
+	r.Check(good, rule, short(fn), c.ipos(timers[0]), "the timer is computed after the queued commands were started", "the retransmission timer of the finished state is computed before the queued commands are started: a flight created in this round (session ticket, key update) has no timer, and while the peer is silent it is never retransmitted")
+}
+
+// ruleRRCKnownTypesRoundTrip (C18): every return-routability message type the codec knows
+// (path_challenge, path_response, path_drop) is decoded with its cookie and with the exact-length
+// check; only unknown types are tolerated without. With the type bound to each known constant no
+// successful exit of the decoder is reachable without the copy into the cookie.
+func ruleRRCKnownTypesRoundTrip(c *Ctx, r *Report) {
+	const rule = "rrc-known-types-round-trip"
+	fn := c.need(r, rule, "(*pkg/protocol.ReturnRoutabilityCheck).Unmarshal")
+	if fn == nil {
+		return
+	}
+	r.Sites += len(fn.Blocks)
+	types_ := c.enumConsts("pkg/protocol", "ReturnRoutabilityCheckMessageType")
+	if len(types_) < 3 {
+		r.Unk(rule, short(fn), c.pos(fn.Pos()), "message type constants not found")
+		return
+	}
+	var copies []ssa.Instruction
+	for _, cp := range findCalls(fn, nameIs("builtin:copy")) {
+		copies = append(copies, cp)
+	}
+	isCopy := map[ssa.Instruction]bool{}
+	for _, x := range copies {
+		isCopy[x] = true
+	}
+	for _, name := range sortedKeys(types_) {
+		tv := types_[name]
+		w := &Walk{Fn: fn, Assume: func(v ssa.Value) (Val, bool) {
+			if _, f, _, ok := fieldLoad(v); ok && f == "MessageType" {
+				return vInt(tv), true
+			}
+			if cv, ok := v.(*ssa.Convert); ok && strings.HasSuffix(namedOrType(cv.Type()), "ReturnRoutabilityCheckMessageType") {
+				return vInt(tv), true
+			}
+			return unknown, false
+		}}
+		w.Visit = func(in ssa.Instruction, _ Env) bool { return !isCopy[in] }
+		w.FromEntry()
+		leak := ""
+		for _, ri := range possibleSuccessReturns(fn) {
+			if w.Reached[ri] {
+				leak = c.ipos(ri)
+			}
+		}
+		r.Check(leak == "", rule, short(fn)+":"+name, c.pos(fn.Pos()), "decoded with its cookie", "a message of the known type "+name+" can be decoded successfully ("+leak+") without its cookie being read: decode(encode(v)) differs from v and the re-encoded record differs from the input")
+	}
+}
+
+// ruleRecordEpochFromOpeningGeneration (C20): the plaintext record a DTLS 1.3 ciphertext record is
+// turned into (whose number is what gets acknowledged) carries the epoch of the key generation that
+// opened it, not the connection's current read epoch: after a key update a late record of the
+// previous epoch would otherwise be acknowledged under the new epoch, where the same sequence
+// number may belong to a different record of the sender.
+func ruleRecordEpochFromOpeningGeneration(c *Ctx, r *Report) {
+	const rule = "record-epoch-from-opening-generation"
+	n := 0
+	for _, s := range c.CallsTo(nameIs("dtls.marshalInnerPlaintextRecord")) {
+		call, ok := s.Call.(*ssa.Call)
+		if !ok || len(call.Call.Args) < 1 {
+			continue
+		}
+		n++
+		r.Sites++
+		ls := c.OriginsIP(call.Call.Args[0], 0)
+		var ds []string
+		good := len(ls) > 0
+		for _, l := range ls {
+			ds = append(ds, c.describe(l))
+			ex, isEx := l.(*ssa.Extract)
+			if !isEx {
+				good = false
+				continue
+			}
+			cl, isCall := ex.Tuple.(*ssa.Call)
+			if !isCall || !strings.HasSuffix(calleeName(&cl.Call), "dtls.Conn).openCiphertextRecord") {
+				good = false
+			}
+		}
+		r.Check(good, rule, short(s.Fn), c.ipos(call), "the epoch of the reconstructed record is the one openCiphertextRecord reported", "the reconstructed plaintext record takes its epoch from ["+strings.Join(dedup(ds), ", ")+"], not from the generation that opened the ciphertext: a late record of an earlier epoch is acknowledged under the current epoch")
+	}
+	r.Floor(rule, n, 1)
+}
+
+// ruleAppDataEpochAtEmission (C20): the DTLS 1.3 state machine stamps every application record
+// with the sending epoch at the moment it emits it, unconditionally: the store into the record
+// header's epoch lies on every way through the loop over the packets. A packet built by Write
+// before a key update completed would otherwise go out, after the update, under the superseded
+// generation: the sending epoch decreases on the wire.
+func ruleAppDataEpochAtEmission(c *Ctx, r *Report) {
+	const rule = "app-data-epoch-at-emission"
+	fn := c.need(r, rule, "(*"+pkgHS+".postHandshake).writeApplicationData")
+	if fn == nil {
+		return
+	}
+	r.Sites += len(fn.Blocks)
+	var stores []*ssa.Store
+	for _, b := range fn.Blocks {
+		for _, in := range b.Instrs {
+			st, ok := in.(*ssa.Store)
+			if !ok {
+				continue
+			}
+			if o, f, _, okF := fieldOfAddr(st.Addr); okF && f == "Epoch" && strings.HasSuffix(o, "recordlayer.Header") {
+				if allLeaves(c.Origins(st.Val, 0), func(l ssa.Value) bool { return isCallResult(l, nameHasSuffix(").LocalEpoch")) }) {
+					stores = append(stores, st)
+				}
+			}
+		}
+	}
+	if len(stores) == 0 {
+		r.Bad(rule, short(fn), c.pos(fn.Pos()), "application records are not stamped with the sending epoch when they are emitted")
+		return
+	}
+	good := false
+	for _, st := range stores {
+		for _, l := range naturalLoops(fn) {
+			if !l.blocks[st.Block()] {
+				continue
+			}
+			all := true
+			for _, latch := range l.latches {
+				if !(st.Block() == latch || st.Block().Dominates(latch)) {
+					all = false
+				}
+			}
+			if all && len(l.latches) > 0 {
+				good = true
+			}
+		}
+	}
+	r.Check(good, rule, short(fn), c.ipos(stores[0]), "every packet is stamped with LocalEpoch() on every way through the loop", "an application packet can pass the emission loop without being stamped with the current sending epoch (the store is conditional): a packet built before a key update completed goes out under the superseded epoch afterwards")
+}
+
+// ruleWrappedHandshakeInnerType (C12, C15): every fragment of a handshake message that is wrapped
+// into a connection-ID record declares the inner content type handshake: the RealType of the inner
+// plaintext built by the handshake-packet path is the constant, not a field of the packet's record
+// header (which this very path overwrites with the tls12_cid header after the first fragment).
+func ruleWrappedHandshakeInnerType(c *Ctx, r *Report) {
+	const rule = "wrapped-handshake-inner-type"
+	fn := c.need(r, rule, "(*dtls.Conn).processHandshakePacket")
+	if fn == nil {
+		return
+	}
+	r.Sites += len(fn.Blocks)
+	ct := c.enumConsts("pkg/protocol", "ContentType")
+	n := 0
+	for _, u := range c.unitFuncs(fn) {
+		for _, st := range c.StoresTo("pkg/protocol/recordlayer.InnerPlaintext", "RealType") {
+			if st.Fn != u {
+				continue
+			}
+			n++
+			k, isK := constInt(st.Val)
+			r.Check(isK && k == ct["ContentTypeHandshake"], rule, short(u), c.ipos(st.Instr), "inner type = handshake (constant)", "the inner content type of a connection-ID-wrapped handshake fragment is taken from "+shapeOf(st.Val, 0)+" instead of being the constant handshake type: the record header it is read from is overwritten with the tls12_cid header after the first fragment, so later fragments are not recognised as handshake data by the peer")
+		}
+	}
+	r.Floor(rule, n, 1)
+}
+
+// ruleSessionIDWithSecret (C14): on the client the offered session ID and the master secret it
+// resumes with are one pair out of the session store: the only non-empty value a client-side
+// function stores into state.SessionID is the ID that the store returned together with the secret
+// (or, after the ServerHello of a full handshake, the ID the server assigned). An ID from anywhere
+// else - the ClientHello after a user hook, say - makes the client take an echoing ServerHello for
+// a resumption although it holds no secret for it.
+func ruleSessionIDWithSecret(c *Ctx, r *Report) {
+	const rule = "session-id-with-secret"
+	n := 0
+	for _, st := range c.StoresTo(tCom, "SessionID") {
+		fn := st.Fn
+		if fn.Pkg == nil || !strings.HasSuffix(fn.Pkg.Pkg.Path(), "internal/flight/flight12") {
+			continue
+		}
+		n++
+		r.Sites++
+		key := fmt.Sprintf("%s:SessionID", short(fn))
+		v := st.Val
+		// empty / nil / fresh random buffer
+		if isNilConst(v) {
+			r.OK(rule, key, c.ipos(st.Instr), "cleared")
+			continue
+		}
+		ok := false
+		why := ""
+		for _, l := range c.OriginsThrough(v, 0) {
+			switch x := l.(type) {
+			case *ssa.MakeSlice, *ssa.Alloc, *ssa.Slice:
+				ok, why = true, "fresh buffer (server-assigned ID) or empty"
+			case *ssa.Extract:
+				if call, isCall := x.Tuple.(*ssa.Call); isCall && x.Index == 0 {
+					// result 0 of the session lookup, whose result 1 is the secret
+					if _, f, _, okF := fieldLoad(call.Call.Value); okF && f == "GetSession" {
+						ok, why = true, "the ID the session store returned with the secret"
+					}
+				}
+			case *ssa.Parameter:
+				// the offered ID handed to the resumption helper, used with the store's secret
+				if len(findDynCallsOfField(fn, "GetSession")) > 0 {
+					ok, why = true, "the offered ID, looked up in the session store in this function"
+				}
+			case *ssa.Call:
+				if calleeName(&x.Call) == "bytes.Clone" || calleeName(&x.Call) == "slices.Clone" {
+					if isFieldLoad(x.Call.Args[0], "pkg/protocol/handshake.MessageServerHello", "SessionID") {
+						ok, why = true, "the ID assigned by the server's ServerHello"
+					}
+				}
+			case *ssa.UnOp:
+				if isFieldLoad(x, "pkg/protocol/handshake.MessageServerHello", "SessionID") {
+					ok, why = true, "the ID assigned by the server's ServerHello"
+				}
+			}
+		}
+		r.Check(ok, rule, key, c.ipos(st.Instr), why, "state.SessionID is set from "+shapeOf(v, 0)+", which is neither the ID the session store returned together with a master secret nor the ID of the peer's ServerHello: the endpoint can take an echoed ID for a resumption of a session it holds no secret for")
+	}
+	r.Floor(rule, n, 4)
+}
+
+func findDynCallsOfField(fn *ssa.Function, field string) []*ssa.Call {
+	var out []*ssa.Call
+	for _, b := range fn.Blocks {
+		for _, in := range b.Instrs {
+			if call, ok := in.(*ssa.Call); ok && call.Call.StaticCallee() == nil && !call.Call.IsInvoke() {
+				if _, f, _, okF := fieldLoad(call.Call.Value); okF && f == field {
+					out = append(out, call)
+				}
+			}
+		}
+	}
+	return out
+}
+
+// ruleResumePreconditionsByRole (C19): resuming applies to the options the preconditions of the
+// role recorded in the serialised state. A refusal that depends on what the options contain (PSK,
+// identity hint, certificates ...) and is decided in the resume path itself must also depend on
+// that role: a precondition of one role applied blindly makes the other role's valid state
+// impossible to resume (a PSK server without identity hint, for instance).
+func ruleResumePreconditionsByRole(c *Ctx, r *Report) {
+	const rule = "resume-preconditions-by-role"
+	fn := c.need(r, rule, "dtls.resumeWithConfig")
+	if fn == nil {
+		return
+	}
+	r.Sites += len(fn.Blocks)
+	n := 0
+	bad := ""
+	for _, b := range fn.Blocks {
+		ret, ok := b.Instrs[len(b.Instrs)-1].(*ssa.Return)
+		if !ok || len(ret.Results) == 0 {
+			continue
+		}
+		ev := unspill(ret.Results[len(ret.Results)-1])
+		u, isLoad := ev.(*ssa.UnOp)
+		if !isLoad {
+			continue
+		}
+		if _, isG := u.X.(*ssa.Global); !isG {
+			continue
+		}
+		n++
+		// the branch conditions this refusal depends on
+		usesOptions, usesRole := false, false
+		for _, blk := range fn.Blocks {
+			iff, isIf := blk.Instrs[len(blk.Instrs)-1].(*ssa.If)
+			if !isIf || !blk.Dominates(b) || blk == b {
+				continue
+			}
+			var walkCond func(v ssa.Value, d int)
+			walkCond = func(v ssa.Value, d int) {
+				if d > 4 {
+					return
+				}
+				switch x := v.(type) {
+				case *ssa.BinOp:
+					walkCond(x.X, d+1)
+					walkCond(x.Y, d+1)
+				case *ssa.UnOp:
+					if o, f, _, okF := fieldLoad(x); okF {
+						if strings.HasSuffix(o, "dtlsConfig") || strings.HasSuffix(o, "dtls.Config") {
+							usesOptions = true
+						}
+						if f == "IsClient" || f == "isClient" {
+							usesRole = true
+						}
+					} else {
+						walkCond(x.X, d+1)
+					}
+				case *ssa.Phi:
+					for _, e := range x.Edges {
+						walkCond(e, d+1)
+					}
+				case *ssa.Call:
+					for _, a := range x.Call.Args {
+						walkCond(a, d+1)
+					}
+				}
+			}
+			walkCond(iff.Cond, 0)
+		}
+		if usesOptions && !usesRole {
+			bad = c.ipos(ret)
+		}
+	}
+	r.Check(bad == "", rule, short(fn), c.pos(fn.Pos()), fmt.Sprintf("%d direct refusal(s), none depends on the options without depending on the role", n), "the resume path refuses ("+bad+") depending on what the options contain without looking at the role recorded in the state: a precondition of one role keeps a valid state of the other role from being resumed")
+}
+
+// ruleMarshalReturnsOwnBuffer (C19): the bytes MarshalBinary returns are the caller's: they come
+// from a buffer local to the call. A buffer taken from a pool (and given back) is overwritten by
+// the next export while the first blob is still in use.
+func ruleMarshalReturnsOwnBuffer(c *Ctx, r *Report) {
+	const rule = "marshal-returns-own-buffer"
+	fn := c.need(r, rule, "(*dtls.State).MarshalBinary")
+	if fn == nil {
+		return
+	}
+	r.Sites += len(fn.Blocks)
+	pooled := len(findCalls(fn, func(n string) bool { return strings.HasPrefix(n, "(*sync.Pool).") })) > 0
+	good := true
+	why := ""
+	for _, ri := range possibleSuccessReturns(fn) {
+		ret := ri.(*ssa.Return)
+		v := unspill(ret.Results[0])
+		for _, l := range c.Origins(v, 0) {
+			call, ok := l.(*ssa.Call)
+			if !ok {
+				continue
+			}
+			nm := calleeName(&call.Call)
+			if nm == "bytes.Clone" || nm == "slices.Clone" || nm == "builtin:append" {
+				continue
+			}
+			if nm == "(*bytes.Buffer).Bytes" {
+				if _, isLocal := call.Call.Args[0].(*ssa.Alloc); !isLocal {
+					good = false
+					why = "the returned bytes are the contents of a buffer that is not local to the call (" + shapeOf(call.Call.Args[0], 0) + ")"
+				}
+			}
+		}
+	}
+	if pooled && good {
+		// a pool is used: the result must be a copy
+		for _, ri := range possibleSuccessReturns(fn) {
+			v := unspill(ri.(*ssa.Return).Results[0])
+			if !anyLeaf(c.Origins(v, 0), func(l ssa.Value) bool {
+				cl, ok := l.(*ssa.Call)
+				return ok && (calleeName(&cl.Call) == "bytes.Clone" || calleeName(&cl.Call) == "slices.Clone")
+			}) {
+				good = false
+				why = "a pooled buffer is used and the result is not a copy"
+			}
+		}
+	}
+	r.Check(good, rule, short(fn), c.pos(fn.Pos()), "the serialised state is returned from a buffer of its own", why+": the next MarshalBinary overwrites a blob that is still in use, which is then rejected as corrupt or resumes with another session's keys")
+}
+
+// ruleVerifyCodecCoversOffered (C18, C02): every (hash, signature) pair the library offers to sign
+// with — the literal list signaturehash.Algorithms returns, which includes the 16-bit RSA-PSS
+// schemes a DTLS 1.3 endpoint with an RSA key selects — can be encoded by the CertificateVerify
+// message: with the two fields bound to the pair, a successful exit of Marshal is reachable. The
+// decoder accepts these schemes; an encoder that refuses them breaks decode(encode(v)) for a value
+// the handshake itself produces, and the 1.3 handshake with an RSA certificate cannot complete.
+func ruleVerifyCodecCoversOffered(c *Ctx, r *Report) {
+	const rule = "verify-codec-covers-offered"
+	list := c.need(r, rule, "pkg/crypto/signaturehash.Algorithms")
+	enc := c.need(r, rule, "(*pkg/protocol/handshake.MessageCertificateVerify).Marshal")
+	if list == nil || enc == nil {
+		return
+	}
+	type pair struct {
+		f    [2]int64
+		have [2]bool
+		from string
+	}
+	// the literal lists: every parameterless function of the package that returns []Algorithm
+	lists := []*ssa.Function{list}
+	for _, fn := range c.Fns {
+		if fn != list && fn.Pkg == list.Pkg && fn.Parent() == nil && len(fn.Params) == 0 && len(fn.Blocks) > 0 &&
+			fn.Signature.Results().Len() == 1 && types.Identical(fn.Signature.Results().At(0).Type(), list.Signature.Results().At(0).Type()) {
+			lists = append(lists, fn)
+		}
+	}
+	sort.Slice(lists, func(a, b int) bool { return lists[a].Name() < lists[b].Name() })
+	byKey := map[[2]int64]*pair{}
+	for _, lf := range lists {
+		cells := map[ssa.Value]*pair{}
+		var order []ssa.Value
+		for _, b := range lf.Blocks {
+			for _, in := range b.Instrs {
+				st, ok := in.(*ssa.Store)
+				if !ok {
+					continue
+				}
+				fa, ok := st.Addr.(*ssa.FieldAddr)
+				if !ok || fa.Field > 1 {
+					continue
+				}
+				k, isV := constInt(st.Val)
+				if !isV {
+					continue
+				}
+				p := cells[fa.X]
+				if p == nil {
+					p = &pair{from: short(lf)}
+					cells[fa.X] = p
+					order = append(order, fa.X)
+				}
+				p.f[fa.Field], p.have[fa.Field] = k, true
+			}
+		}
+		for _, cell := range order {
+			p := cells[cell]
+			if byKey[p.f] == nil {
+				byKey[p.f] = p
+			}
+		}
+	}
+	var keys [][2]int64
+	for k := range byKey {
+		keys = append(keys, k)
+	}
+	sort.Slice(keys, func(a, b int) bool {
+		if keys[a][1] != keys[b][1] {
+			return keys[a][1] < keys[b][1]
+		}
+		return keys[a][0] < keys[b][0]
+	})
+	st, _ := derefType(enc.Params[0].Type()).Underlying().(*types.Struct)
+	if st == nil || st.NumFields() < 2 {
+		r.Unk(rule, short(enc), c.pos(enc.Pos()), "receiver is not a struct")
+		return
+	}
+	// the literal's field 0 is the hash and field 1 the signature; the message names them
+	hashF, sigF := "", ""
+	for i := 0; i < st.NumFields(); i++ {
+		switch {
+		case strings.HasSuffix(namedOrType(st.Field(i).Type()), "crypto/hash.Algorithm"):
+			hashF = st.Field(i).Name()
+		case strings.HasSuffix(namedOrType(st.Field(i).Type()), "crypto/signature.Algorithm"):
+			sigF = st.Field(i).Name()
+		}
+	}
+	if hashF == "" || sigF == "" {
+		r.Unk(rule, short(enc), c.pos(enc.Pos()), "hash/signature fields of the message not found")
+		return
+	}
+	n := 0
+	for _, key := range keys {
+		p := byKey[key]
+		n++
+		r.Sites++
+		w := &Walk{Fn: enc, Follow: func(callee *ssa.Function) bool { return inModule(callee) }, Assume: func(v ssa.Value) (Val, bool) {
+			if _, f, base, ok := fieldLoad(v); ok && rootIsParam(base, enc.Params[0]) {
+				switch f {
+				case hashF:
+					return vInt(p.f[0]), true
+				case sigF:
+					return vInt(p.f[1]), true
+				}
+			}
+			return unknown, false
+		}}
+		w.FromEntry()
+		success := false
+		for _, ro := range w.Returns {
+			last := len(ro.Raw) - 1
+			if last < 0 {
+				continue
+			}
+			if isNilConst(unspill(ro.Raw[last])) || (ro.Vals[last].Kind == 2 && ro.Vals[last].B) {
+				success = true
+			}
+		}
+		name := fmt.Sprintf("(hash %d, signature 0x%04x)", p.f[0], p.f[1])
+		r.Check(success, rule, short(enc)+":"+fmt.Sprintf("hash%d/sig%d", p.f[0], p.f[1]), c.pos(enc.Pos()), "an offered scheme the encoder can write", name+" is offered by "+p.from+" and accepted by the decoder, but no successful exit of "+short(enc)+" is reachable for it: a CertificateVerify signed with this scheme cannot be sent (DTLS 1.3 with an RSA key selects exactly these) and decode(encode(v)) fails for it")
+	}
+	r.Floor(rule, n, 9)
+}
+
+// rootIsParam reports whether base is (a load chain from) the given parameter.
+func rootIsParam(base ssa.Value, p *ssa.Parameter) bool {
+	for i := 0; i < 6 && base != nil; i++ {
+		switch x := base.(type) {
+		case *ssa.Parameter:
+			return x == p
+		case *ssa.UnOp:
+			base = x.X
+		case *ssa.FieldAddr:
+			base = x.X
+		case *ssa.Field:
+			base = x.X
+		default:
+			return false
+		}
+	}
+	return false
+}
+
+// ruleResponseExtensionsAllChecked (C11, C01): the check "a response carries only extension types
+// the ClientHello offered" is made for every element of the response's extension list. In the
+// function that asks the offer snapshot about a non-constant type inside a loop,
+//   - an element that was not offered and that the exception callback does not allow (or with no
+//     callback) ends the function with an error: with Offered false and the callback false neither
+//     the next iteration nor a successful exit is reachable from the loop body;
+//   - no successful exit is reachable from inside the loop body at all without going back through
+//     the loop header: an allowed exception moves on to the next element, it does not end the scan
+//     (every later extension would go unchecked).
+func ruleResponseExtensionsAllChecked(c *Ctx, r *Report) {
+	const rule = "response-extensions-all-checked"
+	n := 0
+	for _, s := range c.CallsTo(func(name string) bool { return strings.HasSuffix(name, "ClientHelloSnapshot).Offered") }) {
+		call, ok := s.Call.(*ssa.Call)
+		if !ok || len(call.Call.Args) < 2 {
+			continue
+		}
+		if _, isK := constInt(call.Call.Args[1]); isK {
+			continue
+		}
+		fn := s.Fn
+		var loop *natLoop
+		for _, l := range naturalLoops(fn) {
+			if l.blocks[call.Block()] && (loop == nil || len(l.blocks) < len(loop.blocks)) {
+				loop = l
+			}
+		}
+		if loop == nil {
+			continue
+		}
+		n++
+		r.Sites += len(fn.Blocks)
+		if fn.Signature.Results().Len() == 0 || !isErrorType(fn.Signature.Results().At(fn.Signature.Results().Len()-1).Type()) {
+			r.Unk(rule, short(fn), c.ipos(call), "the per-element check is not in a function that returns an error: rule cannot be decided")
+			continue
+		}
+		success := map[ssa.Instruction]bool{}
+		for _, ri := range possibleSuccessReturns(fn) {
+			success[ri] = true
+		}
+		var entries []*ssa.BasicBlock
+		for _, su := range loop.header.Succs {
+			if loop.blocks[su] {
+				entries = append(entries, su)
+			}
+		}
+		isFuncParamCall := func(v ssa.Value) bool {
+			cl, ok := v.(*ssa.Call)
+			if !ok || cl.Call.IsInvoke() {
+				return false
+			}
+			_, isP := cl.Call.Value.(*ssa.Parameter)
+			return isP
+		}
+		walkBody := func(assume func(ssa.Value) (Val, bool)) (back bool, leak string) {
+			for _, e := range entries {
+				w := &Walk{Fn: fn, Assume: assume}
+				w.Visit = func(in ssa.Instruction, _ Env) bool {
+					if in.Block() == loop.header {
+						back = true
+						return false
+					}
+					return true
+				}
+				w.FromEdge(loop.header, e)
+				for _, ro := range w.Returns {
+					last := len(ro.Vals) - 1
+					if success[ro.Ret] && !(last >= 0 && ro.Vals[last].Kind == 2 && !ro.Vals[last].B) {
+						leak = c.ipos(ro.Ret)
+					}
+				}
+			}
+			return
+		}
+		// (1) unoffered and not allowed: rejected
+		back, leak := walkBody(func(v ssa.Value) (Val, bool) {
+			if v == ssa.Value(call) || isFuncParamCall(v) {
+				return vBool(false), true
+			}
+			return unknown, false
+		})
+		r.Check(!back && leak == "", rule, short(fn)+":unoffered-rejected", c.ipos(call), "an element neither offered nor excepted ends the function with an error", "with the offer snapshot answering false and the exception callback false the loop body can continue with the next element or return success ("+leak+"): a response extension the client never offered is accepted")
+		// (2) nothing ends the scan with success
+		_, leak = walkBody(func(v ssa.Value) (Val, bool) { return unknown, false })
+		r.Check(leak == "", rule, short(fn)+":scan-complete", c.ipos(call), "success is returned only after the loop is exhausted", "a successful exit ("+leak+") is reachable from inside the loop over the response extensions: the first accepted element ends the scan and every later extension goes unchecked, so a response can carry an extension the client did not offer")
+	}
+	r.Floor(rule, n, 1)
+}
+
+// ruleChainSchemesFallBack (C11): the list of signature schemes a certificate chain is held to is
+// the certificate-specific list when one is configured and the handshake list otherwise (RFC 8446
+// 4.2.3: without signature_algorithms_cert, signature_algorithms also governs the chain). At every
+// call of the chain verifiers, on the paths where the certificate-specific list is empty, the list
+// handed over is cfg.LocalSignatureSchemes; where the path does not resolve the argument (a
+// helper), the handshake list is at least among the argument's origins.
+func ruleChainSchemesFallBack(c *Ctx, r *Report) {
+	const rule = "chain-schemes-fall-back"
+	n := 0
+	for _, s := range c.CallsTo(nameIs("internal/handshakecrypto.VerifyClientCert", "internal/handshakecrypto.VerifyServerCert")) {
+		call, ok := s.Call.(*ssa.Call)
+		if !ok || !inModule(s.Fn) || strings.HasSuffix(s.Fn.Pkg.Pkg.Path(), "internal/handshakecrypto") {
+			continue
+		}
+		fn := s.Fn
+		for fn.Parent() != nil {
+			fn = fn.Parent()
+		}
+		if fn != s.Fn {
+			continue
+		}
+		arg := call.Call.Args[len(call.Call.Args)-1]
+		n++
+		r.Sites += len(fn.Blocks)
+		seen, good, bad := 0, 0, ""
+		w := &Walk{Fn: fn, Follow: followSamePkg(fn), Assume: func(v ssa.Value) (Val, bool) {
+			if cl, ok := v.(*ssa.Call); ok && calleeName(&cl.Call) == "builtin:len" && len(cl.Call.Args) == 1 {
+				if _, f, _, ok := fieldLoad(cl.Call.Args[0]); ok && f == "LocalCertSignatureSchemes" {
+					return vInt(0), true
+				}
+			}
+			return unknown, false
+		}}
+		w.VisitRaw = func(in ssa.Instruction, _ Env, raw map[*ssa.Phi]ssa.Value) bool {
+			if in != ssa.Instruction(call) {
+				return true
+			}
+			seen++
+			v := resolvePhis(arg, raw)
+			if _, f, _, ok := fieldLoad(v); ok {
+				if f == "LocalSignatureSchemes" {
+					good++
+				} else {
+					bad = f
+				}
+				return true
+			}
+			for _, l := range c.OriginsThrough(v, 0) {
+				if _, f, _, ok := fieldLoad(l); ok && f == "LocalSignatureSchemes" {
+					good++
+					return true
+				}
+			}
+			bad = c.describe(v)
+			return true
+		}
+		w.FromEntry()
+		key := short(fn) + ":" + strings.TrimPrefix(calleeName(&call.Call), "internal/handshakecrypto.")
+		if seen == 0 {
+			r.Unk(rule, key, c.ipos(call), "the chain verification is not reached with the certificate-specific list empty: rule cannot be decided")
+			continue
+		}
+		r.Check(bad == "" && good > 0, rule, key, c.ipos(call), "with no certificate-specific list the chain is held to cfg.LocalSignatureSchemes", "with cfg.LocalCertSignatureSchemes empty the chain verifier receives "+bad+" instead of cfg.LocalSignatureSchemes: an endpoint that restricts its signature schemes accepts a certificate chain signed with a scheme outside its policy")
+	}
+	r.Floor(rule, n, 4)
+}
+
+// ruleRetryExtensionPreserved (C13, C04): an extension the cookie exchange pins (connection_id,
+// use_srtp) is present in both ClientHellos or in neither, with the same bytes. In every function
+// that looks the same extension up in two different snapshot parameters, with the two presence
+// flags and the byte comparison bound to each combination, success is reachable only when the
+// flags agree and the bytes are equal; and at every caller a failure of that function leaves no
+// successful exit. The first ClientHello being silent about the extension is no licence for the
+// second to add it: that hello is the one the server negotiates from.
+func ruleRetryExtensionPreserved(c *Ctx, r *Report) {
+	const rule = "retry-extension-preserved"
+	byFn := map[*ssa.Function][]*ssa.Call{}
+	var order []*ssa.Function
+	for _, s := range c.CallsTo(func(name string) bool { return strings.HasSuffix(name, "ClientHelloSnapshot).Extension") }) {
+		call, ok := s.Call.(*ssa.Call)
+		if !ok || len(call.Call.Args) < 2 || !inModule(s.Fn) {
+			continue
+		}
+		if _, isP := call.Call.Args[0].(*ssa.Parameter); !isP {
+			continue
+		}
+		if byFn[s.Fn] == nil {
+			order = append(order, s.Fn)
+		}
+		byFn[s.Fn] = append(byFn[s.Fn], call)
+	}
+	sort.Slice(order, func(a, b int) bool { return short(order[a]) < short(order[b]) })
+	n := 0
+	for _, fn := range order {
+		calls := byFn[fn]
+		if len(calls) != 2 || calls[0].Call.Args[0] == calls[1].Call.Args[0] {
+			continue
+		}
+		res := fn.Signature.Results()
+		if res.Len() == 0 || !isErrorType(res.At(res.Len()-1).Type()) {
+			continue
+		}
+		n++
+		r.Sites += len(fn.Blocks)
+		presentOf := func(v ssa.Value) int {
+			ex, ok := v.(*ssa.Extract)
+			if !ok || ex.Index != 1 {
+				return -1
+			}
+			for i, cl := range calls {
+				if ex.Tuple == ssa.Value(cl) {
+					return i
+				}
+			}
+			return -1
+		}
+		success := map[ssa.Instruction]bool{}
+		for _, ri := range possibleSuccessReturns(fn) {
+			success[ri] = true
+		}
+		var wrong []string
+		for _, combo := range [][3]bool{{true, false, true}, {true, false, false}, {false, true, true}, {false, true, false}, {true, true, false}} {
+			eqSeen := false
+			w := &Walk{Fn: fn, Follow: followSamePkg(fn), Assume: func(v ssa.Value) (Val, bool) {
+				if i := presentOf(v); i >= 0 {
+					return vBool(combo[i]), true
+				}
+				if cl, ok := v.(*ssa.Call); ok {
+					switch calleeName(&cl.Call) {
+					case "bytes.Equal", "crypto/hmac.Equal":
+						eqSeen = true
+						return vBool(combo[2]), true
+					case "crypto/subtle.ConstantTimeCompare":
+						eqSeen = true
+						if combo[2] {
+							return vInt(1), true
+						}
+						return vInt(0), true
+					}
+				}
+				return unknown, false
+			}}
+			w.FromEntry()
+			_ = eqSeen
+			for _, ro := range w.Returns {
+				last := len(ro.Vals) - 1
+				if success[ro.Ret] && !(last >= 0 && ro.Vals[last].Kind == 2 && !ro.Vals[last].B) {
+					wrong = append(wrong, fmt.Sprintf("first present=%v, second present=%v, bytes equal=%v accepted at %s", combo[0], combo[1], combo[2], c.ipos(ro.Ret)))
+					break
+				}
+			}
+		}
+		r.Check(len(wrong) == 0, rule, short(fn), c.pos(fn.Pos()), "accepted only when present in both hellos or in neither, with equal bytes", "the pinned extension may differ between the two ClientHellos: "+strings.Join(wrong, "; ")+": the second ClientHello is not otherwise identical to the first, yet the server answers it with its ServerHello flight")
+		// callers: a failure leaves no successful exit
+		for _, s := range c.CallsToName(short(fn)) {
+			cc, ok := s.Call.(*ssa.Call)
+			if !ok || !inModule(s.Fn) {
+				continue
+			}
+			caller := s.Fn
+			cs := map[ssa.Instruction]bool{}
+			for _, ri := range possibleSuccessReturns(caller) {
+				cs[ri] = true
+			}
+			w := &Walk{Fn: caller, Assume: func(v ssa.Value) (Val, bool) {
+				if v == ssa.Value(cc) {
+					return vNil(false), true
+				}
+				return unknown, false
+			}}
+			w.After(cc)
+			leak := ""
+			for _, ro := range w.Returns {
+				last := len(ro.Vals) - 1
+				if cs[ro.Ret] && !(last >= 0 && ro.Vals[last].Kind == 2 && !ro.Vals[last].B) {
+					leak = c.ipos(ro.Ret)
+				}
+			}
+			r.Check(leak == "", rule, short(caller)+"->"+fn.Name(), c.ipos(cc), "a changed pinned extension fails the caller", "after "+fn.Name()+" reported a changed extension "+short(caller)+" can still succeed ("+leak+")")
+		}
+	}
+	r.Floor(rule, n, 2)
+}
+
+// asymmetricWork: the instruction calls straight into the standard library's public-key packages
+// (key generation, key agreement, encapsulation, signing): the work a cookie exchange exists to
+// withhold from an unverified address.
+func asymmetricWork(in ssa.Instruction) string {
+	ci, ok := in.(ssa.CallInstruction)
+	if !ok {
+		return ""
+	}
+	cc := ci.Common()
+	path, name := "", ""
+	if cc.IsInvoke() {
+		if cc.Method.Pkg() != nil {
+			path, name = cc.Method.Pkg().Path(), cc.Method.Name()
+		}
+	} else if f := cc.StaticCallee(); f != nil && f.Pkg != nil {
+		path, name = f.Pkg.Pkg.Path(), f.Name()
+	}
+	switch path {
+	case "crypto/ecdh", "crypto/mlkem", "crypto/ecdsa", "crypto/rsa", "crypto/ed25519", "crypto/elliptic":
+		switch {
+		case strings.HasPrefix(name, "Generate"), strings.HasPrefix(name, "Sign"), name == "ECDH", strings.HasPrefix(name, "Encapsulate"), strings.HasPrefix(name, "Decapsulate"), strings.HasPrefix(name, "Decrypt"), name == "ScalarMult", name == "ScalarBaseMult":
+			return path + "." + name
+		}
+	case "crypto":
+		if name == "Sign" || name == "Decrypt" {
+			return "crypto." + name
+		}
+	}
+	return ""
+}
+
+// ruleNoKeyWorkBeforeCookie (C13): with hello verification on, no public-key operation (key-pair
+// generation, key agreement, encapsulation, signature) is reachable while the first ClientHello is
+// parsed, nor in the second-hello parser before the cookie/body validation: a spoofed source
+// address cannot make the server commit key-exchange work. Module callees are followed.
+func ruleNoKeyWorkBeforeCookie(c *Ctx, r *Report) {
+	const rule = "no-key-work-before-cookie"
+	follow := func(callee *ssa.Function) bool { return inModule(callee) }
+	verifyOn := assumeAll(atomAssume{mLoad(tCfg, "InsecureSkipHelloVerify"), vBool(false)})
+	for _, v := range []struct{ pkg, validate string }{
+		{pkgF12, "internal/negotiation.ValidateHelloVerifyRequestResponse"},
+		{pkgF13, "internal/negotiation.ValidateClientHelloRetry"},
+	} {
+		f0 := c.need(r, rule, v.pkg+".flight0Parse")
+		f2 := c.need(r, rule, v.pkg+".flight2Parse")
+		if f0 == nil || f2 == nil {
+			continue
+		}
+		r.Sites += len(f0.Blocks) + len(f2.Blocks)
+		first := func(w *Walk) string {
+			var at ssa.Instruction
+			what := ""
+			for in := range w.Reached {
+				if k := asymmetricWork(in); k != "" && (at == nil || w.Seq[in] < w.Seq[at]) {
+					at, what = in, k
+				}
+			}
+			if at == nil {
+				return ""
+			}
+			return what + " at " + c.ipos(at) + " (in " + short(at.Parent()) + ")"
+		}
+		w := &Walk{Fn: f0, Follow: follow, FollowDeferring: true, Assume: verifyOn}
+		w.FromEntry()
+		if w.overflow {
+			r.Unk(rule, short(f0), c.pos(f0.Pos()), "exploration overflow")
+		} else {
+			k := first(w)
+			r.Check(k == "", rule, short(f0), c.pos(f0.Pos()), "no public-key operation while the first ClientHello is parsed with hello verification on", "with hello verification on, parsing the first (unverified) ClientHello reaches "+k+": every spoofed ClientHello costs the server a public-key operation before any cookie came back")
+		}
+		nval := 0
+		w2 := &Walk{Fn: f2, Follow: follow, FollowDeferring: true, Assume: verifyOn}
+		w2.Visit = func(in ssa.Instruction, _ Env) bool {
+			if cl, ok := in.(*ssa.Call); ok && calleeName(&cl.Call) == v.validate {
+				nval++
+				return false
+			}
+			return true
+		}
+		w2.FromEntry()
+		if w2.overflow || nval == 0 {
+			r.Unk(rule, short(f2), c.pos(f2.Pos()), "exploration overflow or the validation call was not reached")
+		} else {
+			k := first(w2)
+			r.Check(k == "", rule, short(f2)+":before-validation", c.pos(f2.Pos()), "no public-key operation before the cookie and body of the second ClientHello are validated", "the second-hello parser reaches "+k+" before "+v.validate+" has accepted the cookie: a ClientHello with a wrong or missing cookie costs the server a public-key operation")
+		}
+	}
+}
+
+// ruleCookieRequestNeedsHello (C13): while the server waits for the second ClientHello, a wake-up
+// that brought no ClientHello (the pull of the expected hello is not ready) sends nothing: the
+// cookie-wait parser returns "keep waiting". The state machine is woken for every datagram that
+// holds an epoch-0 handshake record, whatever its type; a parser that answers such a wake-up by
+// re-evaluating the cached first ClientHello re-sends the cookie request for a record that is not a
+// ClientHello, as often as the peer (or anyone spoofing it) likes. A re-send that depends on
+// something besides the pull (for instance on the wake-up being a retransmission) is accepted.
+func ruleCookieRequestNeedsHello(c *Ctx, r *Report) {
+	const rule = "cookie-request-needs-hello"
+	follow := func(callee *ssa.Function) bool { return inModule(callee) }
+	for _, pkg := range []string{pkgF12, pkgF13} {
+		f2 := c.need(r, rule, pkg+".flight2Parse")
+		if f2 == nil {
+			continue
+		}
+		r.Sites += len(f2.Blocks)
+		isPullField := func(v ssa.Value) (string, bool) {
+			_, f, base, ok := fieldLoad(v)
+			if !ok {
+				return "", false
+			}
+			for i := 0; i < 4; i++ {
+				switch x := base.(type) {
+				case *ssa.UnOp:
+					base = x.X
+					continue
+				case *ssa.Alloc:
+					for _, ref := range *x.Referrers() {
+						if st, ok := ref.(*ssa.Store); ok && st.Addr == ssa.Value(x) {
+							base = st.Val
+						}
+					}
+					continue
+				}
+				break
+			}
+			cl, isCall := base.(*ssa.Call)
+			if !isCall || !strings.Contains(calleeName(&cl.Call), "Pull") || cl.Parent() != f2 {
+				return "", false
+			}
+			return f, true
+		}
+		seen := false
+		w := &Walk{Fn: f2, Follow: follow, FollowDeferring: true, Assume: func(v ssa.Value) (Val, bool) {
+			if f, ok := isPullField(v); ok {
+				switch f {
+				case "Ready":
+					seen = true
+					return vBool(false), true
+				case "Err":
+					return vNil(true), true
+				}
+			}
+			return unknown, false
+		}}
+		w.FromEntry()
+		if !seen || w.overflow {
+			r.Unk(rule, short(f2), c.pos(f2.Pos()), "the parser does not test the readiness of its pull (or exploration overflow): rule cannot be decided")
+			continue
+		}
+		bad := ""
+		for _, ro := range w.Returns {
+			if len(ro.Vals) == 0 || ro.Vals[0] == vInt(0) {
+				continue
+			}
+			// guarded by a condition that is not a field of the pull?
+			guarded := false
+			for _, b := range f2.Blocks {
+				iff, isIf := b.Instrs[len(b.Instrs)-1].(*ssa.If)
+				if !isIf || !b.Dominates(ro.Ret.Block()) || b == ro.Ret.Block() {
+					continue
+				}
+				var only func(v ssa.Value, d int) bool
+				only = func(v ssa.Value, d int) bool {
+					if _, ok := isPullField(v); ok {
+						return true
+					}
+					switch x := v.(type) {
+					case *ssa.Const:
+						return true
+					case *ssa.BinOp:
+						return d < 4 && only(x.X, d+1) && only(x.Y, d+1)
+					case *ssa.UnOp:
+						return d < 4 && x.Op == token.NOT && only(x.X, d+1)
+					}
+					return false
+				}
+				onlyPull := only(iff.Cond, 0)
+				if !onlyPull && (b.Succs[0].Dominates(ro.Ret.Block()) != b.Succs[1].Dominates(ro.Ret.Block())) {
+					guarded = true
+				}
+			}
+			if !guarded {
+				bad = "flight " + ro.Vals[0].String() + " returned at " + c.ipos(ro.Ret)
+			}
+		}
+		r.Check(bad == "", rule, short(f2)+":not-ready-keeps-silent", c.pos(f2.Pos()), "a wake-up without the expected ClientHello sends nothing", "with no ClientHello ready the cookie-wait parser still yields a flight ("+bad+"): every epoch-0 handshake record that is not a ClientHello - a stray fragment, a message with a later message_seq - makes the server send its cookie request again, with no cookie needed and without bound")
+	}
+}
+
+// firstResultIsFlight: the function is a flight parser by type (its first result is a Flight;
+// generators return packets).
+func firstResultIsFlight(fn *ssa.Function) bool {
+	res := fn.Signature.Results()
+	return res.Len() > 0 && strings.HasSuffix(namedOrType(res.At(0).Type()), ".Flight")
+}
+
+// notInList builds the assumption "the tested value is not an element of the list": a
+// slices.Contains / slices.Index over a list accepted by isList answers false / -1, and an
+// equality of anything with an element of such a list is false. matched counts the uses.
+func notInList(isList func(ssa.Value) bool, matched *int) func(ssa.Value) (Val, bool) {
+	var elemSlice func(v ssa.Value, d int) ssa.Value
+	elemSlice = func(v ssa.Value, d int) ssa.Value {
+		if d > 4 {
+			return nil
+		}
+		switch x := v.(type) {
+		case *ssa.Field:
+			return elemSlice(x.X, d+1)
+		case *ssa.UnOp:
+			if x.Op == token.MUL {
+				return elemSlice(x.X, d+1)
+			}
+		case *ssa.FieldAddr:
+			return elemSlice(x.X, d+1)
+		case *ssa.IndexAddr:
+			return x.X
+		case *ssa.Index:
+			return x.X
+		case *ssa.Extract: // range over a string slice yields (index, value) through next
+			return nil
+		}
+		return nil
+	}
+	return func(v ssa.Value) (Val, bool) {
+		switch x := v.(type) {
+		case *ssa.BinOp:
+			if x.Op != token.EQL && x.Op != token.NEQ {
+				return unknown, false
+			}
+			for _, side := range []ssa.Value{x.X, x.Y} {
+				if sl := elemSlice(side, 0); sl != nil && isList(sl) {
+					*matched++
+					return vBool(x.Op == token.NEQ), true
+				}
+			}
+		case *ssa.Call:
+			nm := calleeName(&x.Call)
+			if (strings.HasPrefix(nm, "slices.Contains") || strings.HasPrefix(nm, "slices.Index")) && len(x.Call.Args) > 0 && isList(x.Call.Args[0]) {
+				*matched++
+				if strings.HasPrefix(nm, "slices.Index") {
+					return vInt(-1), true
+				}
+				return vBool(false), true
+			}
+		}
+		return unknown, false
+	}
+}
+
+// ruleALPNSelectionWasOffered (C11, C01): a flight parser that records the application protocol the
+// peer selected (the Protocol of an ALPN selection taken from a received message) does so only if
+// that protocol is one of cfg.SupportedProtocols, the list this endpoint offered: with every
+// membership test over that list answering "not in it" the store is unreachable. Otherwise a
+// non-conforming or tampered-with server makes the client complete on a protocol outside its own
+// list.
+func ruleALPNSelectionWasOffered(c *Ctx, r *Report) {
+	const rule = "alpn-selection-was-offered"
+	n := 0
+	for _, st := range c.StoresTo(tCom, "NegotiatedProtocol") {
+		fn := st.Fn
+		for fn.Parent() != nil {
+			fn = fn.Parent()
+		}
+		if !inModule(fn) || !c.onParserSide(fn, 0) {
+			continue
+		}
+		fromPeer := false
+		for _, l := range c.Origins(st.Val, 0) {
+			if o, f, _, ok := fieldLoad(l); ok && f == "Protocol" && strings.HasSuffix(o, "extension.ALPNSelection") {
+				fromPeer = true
+			}
+		}
+		if !fromPeer {
+			continue
+		}
+		n++
+		r.Sites += len(fn.Blocks)
+		matched := 0
+		isList := func(s ssa.Value) bool {
+			ls := c.OriginsIP(s, 0)
+			return len(ls) > 0 && allLeaves(ls, func(l ssa.Value) bool {
+				_, f, _, ok := fieldLoad(l)
+				return ok && f == "SupportedProtocols"
+			})
+		}
+		w := &Walk{Fn: fn, Follow: followSamePkg(fn), Assume: notInList(isList, &matched)}
+		w.FromEntry()
+		key := short(fn) + ":alpn-selection"
+		if matched == 0 {
+			r.Bad(rule, key, c.ipos(st.Instr), "the application protocol the peer selected is recorded without ever being compared with cfg.SupportedProtocols: a server that selects a protocol this client never offered is accepted and both sides complete on it")
+			continue
+		}
+		r.Check(!w.Reached[st.Instr], rule, key, c.ipos(st.Instr), "unreachable when the selected protocol is not in cfg.SupportedProtocols", "the peer's selected application protocol is recorded although it matched no element of cfg.SupportedProtocols")
+	}
+	r.Floor(rule, n, 2)
+}
+
+// ruleServerCurveWasOffered (C11): the DTLS 1.2 client generates its key pair on the group the
+// ServerKeyExchange names only if that group is one it offered (cfg.EllipticCurves, as filtered for
+// the hello): with every membership test over that list answering "not in it", no key generation
+// on the peer's NamedCurve is reachable in the function that handles the message. The first
+// ClientHello and the ServerKeyExchange parameters are covered by the server's signature only as
+// sent, so a rewritten supported_groups (or a non-conforming server) otherwise makes the client
+// complete on a group outside its policy.
+func ruleServerCurveWasOffered(c *Ctx, r *Report) {
+	const rule = "server-curve-was-offered"
+	n := 0
+	byFn := map[*ssa.Function][]*ssa.Call{}
+	var order []*ssa.Function
+	for _, s := range c.CallsTo(nameIs("pkg/crypto/elliptic.GenerateKeypair", "pkg/crypto/elliptic.GenerateKeypairForPeer")) {
+		call, ok := s.Call.(*ssa.Call)
+		if !ok || !inModule(s.Fn) || len(call.Call.Args) == 0 {
+			continue
+		}
+		fromPeer := false
+		for _, l := range c.Origins(call.Call.Args[0], 0) {
+			if o, f, _, ok := fieldLoad(l); ok && f == "NamedCurve" && strings.HasSuffix(o, "handshake.MessageServerKeyExchange") {
+				fromPeer = true
+			}
+		}
+		if !fromPeer {
+			continue
+		}
+		if byFn[s.Fn] == nil {
+			order = append(order, s.Fn)
+		}
+		byFn[s.Fn] = append(byFn[s.Fn], call)
+	}
+	isCurveList := func(s ssa.Value) bool {
+		hasField := func(v ssa.Value) bool {
+			for _, l := range c.OriginsThrough(v, 0) {
+				if _, f, _, ok := fieldLoad(l); ok && f == "EllipticCurves" {
+					return true
+				}
+			}
+			return false
+		}
+		if hasField(s) {
+			return true
+		}
+		if cl, ok := s.(*ssa.Call); ok && cl.Call.StaticCallee() != nil && inModule(cl.Call.StaticCallee()) {
+			for _, a := range cl.Call.Args {
+				if hasField(a) {
+					return true
+				}
+			}
+		}
+		return false
+	}
+	for _, fn := range order {
+		n++
+		r.Sites += len(fn.Blocks)
+		matched := 0
+		w := &Walk{Fn: fn, Follow: followSamePkg(fn), Assume: notInList(isCurveList, &matched)}
+		w.FromEntry()
+		at := ""
+		for _, cl := range byFn[fn] {
+			if w.Reached[cl] {
+				at = c.ipos(cl)
+			}
+		}
+		key := short(fn) + ":named-curve"
+		if matched == 0 {
+			r.Bad(rule, key, c.ipos(byFn[fn][0]), "the group named by the ServerKeyExchange is never compared with cfg.EllipticCurves before the client generates its key pair on it: the client completes on a group it did not offer")
+			continue
+		}
+		r.Check(at == "", rule, key, c.ipos(byFn[fn][0]), "no key generation on the peer's group when it is not in cfg.EllipticCurves", "the client generates its key pair on the ServerKeyExchange's group ("+at+") although it matched no element of cfg.EllipticCurves")
+	}
+	r.Floor(rule, n, 1)
+}
+
+// ruleOwnSignatureWithinPolicy (C11): the scheme an endpoint signs its own handshake signature with
+// is chosen from a list bounded by its own policy. At every call of the scheme selectors outside
+// their package the candidate list is cfg.LocalSignatureSchemes itself, or the result of a helper
+// that was handed cfg.LocalSignatureSchemes and in which, with every membership test over that
+// parameter answering "not in it", no element is appended to the result. A client that picks from
+// the server's CertificateRequest list alone signs with a scheme its own configuration excludes.
+func ruleOwnSignatureWithinPolicy(c *Ctx, r *Report) {
+	const rule = "own-signature-within-policy"
+	isLocal := func(v ssa.Value) bool {
+		ls := c.OriginsIP(v, 0)
+		return len(ls) > 0 && allLeaves(ls, func(l ssa.Value) bool {
+			_, f, _, ok := fieldLoad(l)
+			return ok && f == "LocalSignatureSchemes"
+		})
+	}
+	n := 0
+	for _, s := range c.CallsTo(nameIs("pkg/crypto/signaturehash.SelectSignatureScheme", "pkg/crypto/signaturehash.SelectSignatureScheme13")) {
+		call, ok := s.Call.(*ssa.Call)
+		if !ok || !inModule(s.Fn) || strings.HasSuffix(s.Fn.Pkg.Pkg.Path(), "pkg/crypto/signaturehash") || len(call.Call.Args) == 0 {
+			continue
+		}
+		n++
+		r.Sites++
+		key := short(s.Fn) + ":" + strings.TrimPrefix(calleeName(&call.Call), "pkg/crypto/signaturehash.")
+		arg := call.Call.Args[0]
+		if isLocal(arg) {
+			r.OK(rule, key, c.ipos(call), "selected from cfg.LocalSignatureSchemes")
+			continue
+		}
+		// a pure support test: the selected scheme is discarded, nothing is signed with it
+		used := false
+		for _, ref := range *call.Referrers() {
+			if ex, ok := ref.(*ssa.Extract); ok && ex.Index == 0 && len(*ex.Referrers()) > 0 {
+				used = true
+			}
+		}
+		if !used {
+			n--
+			continue
+		}
+		good, why := false, "the candidate list does not derive from cfg.LocalSignatureSchemes"
+		// built in place: a list accumulated by appends that are unreachable for an element outside
+		// the local list
+		if apps := accumulatorAppends(arg); len(apps) > 0 {
+			matched := 0
+			w := &Walk{Fn: s.Fn, Assume: notInList(isLocal, &matched)}
+			w.FromEntry()
+			appended := ""
+			for _, a := range apps {
+				if w.Reached[a] {
+					appended = c.ipos(a)
+				}
+			}
+			switch {
+			case matched == 0:
+				why = "the list is accumulated without comparing its elements with cfg.LocalSignatureSchemes"
+			case appended != "":
+				why = "a scheme is appended (" + appended + ") that matched no element of cfg.LocalSignatureSchemes"
+			default:
+				good = true
+			}
+		}
+		// a helper that was handed the local list
+		for _, l := range c.Origins(arg, 0) {
+			hc, isCall := l.(*ssa.Call)
+			if !isCall {
+				continue
+			}
+			helper := hc.Call.StaticCallee()
+			if helper == nil || !inModule(helper) || len(helper.Blocks) == 0 {
+				continue
+			}
+			for i, a := range hc.Call.Args {
+				if !isLocal(a) || i >= len(helper.Params) {
+					continue
+				}
+				p := helper.Params[i]
+				matched := 0
+				w := &Walk{Fn: helper, Assume: notInList(func(sl ssa.Value) bool { return sl == ssa.Value(p) }, &matched)}
+				w.FromEntry()
+				appended := ""
+				for in := range w.Reached {
+					if cl, ok := in.(*ssa.Call); ok && calleeName(&cl.Call) == "builtin:append" {
+						appended = c.ipos(in)
+					}
+				}
+				switch {
+				case matched == 0:
+					why = short(helper) + " never compares an element with the local list it is handed"
+				case appended != "":
+					why = short(helper) + " appends a scheme (" + appended + ") that matched no element of the local list"
+				default:
+					good = true
+				}
+			}
+		}
+		r.Check(good, rule, key, c.ipos(call), "selected from the peer's list restricted to cfg.LocalSignatureSchemes", "the endpoint selects the scheme of its own handshake signature from a list its policy does not bound ("+why+"): it signs with a scheme its configuration excludes and the handshake completes")
+	}
+	r.Floor(rule, n, 4)
+}
+
+// accumulatorAppends: the append calls that build the slice v (through phis and the accumulated
+// first argument).
+func accumulatorAppends(v ssa.Value) []*ssa.Call {
+	var out []*ssa.Call
+	seen := map[ssa.Value]bool{}
+	var visit func(x ssa.Value, d int)
+	visit = func(x ssa.Value, d int) {
+		if x == nil || seen[x] || d > 12 {
+			return
+		}
+		seen[x] = true
+		switch y := x.(type) {
+		case *ssa.Phi:
+			for _, e := range y.Edges {
+				visit(e, d+1)
+			}
+		case *ssa.Call:
+			if calleeName(&y.Call) == "builtin:append" && len(y.Call.Args) > 0 {
+				out = append(out, y)
+				visit(y.Call.Args[0], d+1)
+			}
+		case *ssa.UnOp:
+			if u := unspill(y); u != ssa.Value(y) {
+				visit(u, d+1)
+			}
+		}
+	}
+	visit(v, 0)
+	return out
+}
+
+// ruleALPNNegotiatedWhereRecorded (C11): a flight package that records the peer's application
+// protocol offer (a store of an ALPN offer's list into PeerSupportedProtocols) also selects from
+// it: it calls the selection helper with that list, so that disjoint lists end the handshake with
+// an alert. A version that records the offer and never answers it completes with no protocol on
+// either side whatever the two lists are.
+func ruleALPNNegotiatedWhereRecorded(c *Ctx, r *Report) {
+	const rule = "alpn-negotiated-where-recorded"
+	recorded := map[string]string{}
+	for _, st := range c.StoresTo(tCom, "PeerSupportedProtocols") {
+		if st.Fn.Pkg == nil || !inModule(st.Fn) {
+			continue
+		}
+		fromOffer := false
+		for _, l := range c.OriginsThrough(st.Val, 0) {
+			if o, f, _, ok := fieldLoad(l); ok && f == "Protocols" && strings.HasSuffix(o, "extension.ALPNOffer") {
+				fromOffer = true
+			}
+			if cl, ok := l.(*ssa.Call); ok && strings.HasPrefix(calleeName(&cl.Call), "slices.Clone") {
+				for _, l2 := range c.Origins(cl.Call.Args[0], 0) {
+					if o, f, _, ok := fieldLoad(l2); ok && f == "Protocols" && strings.HasSuffix(o, "extension.ALPNOffer") {
+						fromOffer = true
+					}
+				}
+			}
+		}
+		if fromOffer {
+			recorded[st.Fn.Pkg.Pkg.Path()] = c.ipos(st.Instr)
+		}
+	}
+	selects := map[string]bool{}
+	for _, s := range c.CallsToName("pkg/protocol/extension.ALPNProtocolSelection") {
+		if s.Fn.Pkg != nil {
+			selects[s.Fn.Pkg.Pkg.Path()] = true
+		}
+	}
+	n := 0
+	for _, pkg := range sortedKeys(recorded) {
+		n++
+		r.Sites++
+		r.Check(selects[pkg], rule, strings.TrimPrefix(pkg, modPath+"/")+":alpn-selection", recorded[pkg], "the package that records the peer's ALPN offer selects from it", "the peer's ALPN offer is recorded ("+recorded[pkg]+") but nothing in "+strings.TrimPrefix(pkg, modPath+"/")+" ever selects a protocol from it: with disjoint lists this version completes silently with no protocol on either side instead of failing with no_application_protocol, and with a common protocol none is negotiated")
+	}
+	r.Floor(rule, n, 2)
+}
+
+// ruleSuiteFitsPresentedCertificate (C11): the certificate the DTLS 1.2 server signs its
+// ServerKeyExchange with is looked up under the peer's server name, after the cipher suite was
+// fixed; the suite's certificate type must therefore be held against that certificate's key (a
+// comparison of CipherSuite.CertificateType in the signing function), or the suite must have been
+// chosen with that certificate in hand (a certificate lookup in the function that stores the
+// negotiated suite). Filtering the configured suites by the default certificate alone lets the
+// handshake complete on an ECDSA suite with an RSA certificate chosen by name.
+func ruleSuiteFitsPresentedCertificate(c *Ctx, r *Report) {
+	const rule = "suite-fits-presented-certificate"
+	n := 0
+	for _, s := range c.CallsTo(func(nm string) bool { return strings.HasSuffix(nm, "internal/config.HandshakeConfig).GetCertificate") }) {
+		call, ok := s.Call.(*ssa.Call)
+		if !ok || !inModule(s.Fn) || !strings.HasSuffix(s.Fn.Pkg.Pkg.Path(), pkgF12) {
+			continue
+		}
+		fn := s.Fn
+		// signs a key exchange afterwards?
+		signs := false
+		for _, k := range findCalls(fn, nameIs("internal/handshakecrypto.GenerateKeySignature")) {
+			if instrReaches(call, k) {
+				signs = true
+			}
+		}
+		if !signs {
+			continue
+		}
+		n++
+		r.Sites += len(fn.Blocks)
+		held := false
+		for _, b := range fn.Blocks {
+			for _, in := range b.Instrs {
+				if cl, ok := in.(*ssa.Call); ok && cl.Call.IsInvoke() && cl.Call.Method.Name() == "CertificateType" && instrReaches(call, cl) {
+					held = true
+				}
+			}
+		}
+		chosenWith := false
+		for _, st := range c.StoresTo(tCom, "CipherSuite") {
+			if !inModule(st.Fn) || !strings.HasSuffix(st.Fn.Pkg.Pkg.Path(), pkgF12) {
+				continue
+			}
+			for _, g := range findCalls(st.Fn, func(nm string) bool { return strings.HasSuffix(nm, "HandshakeConfig).GetCertificate") }) {
+				if instrReaches(g, st.Instr) {
+					chosenWith = true
+				}
+			}
+		}
+		r.Check(held || chosenWith, rule, short(fn)+":signing-certificate", c.ipos(call), "the suite's certificate type is held against the certificate that signs", "the certificate that signs the ServerKeyExchange is chosen by the peer's server name after the suite was fixed, and neither is the suite's certificate type compared with that certificate's key nor was the suite chosen with it: the configured suites are filtered by the default certificate only, so with certificates of different key types the handshake completes on a suite that does not fit the key used")
+	}
+	r.Floor(rule, n, 1)
+}
+
+// onParserSide: fn is a flight parser by type, or is called (statically, up to three levels) by
+// one.
+func (c *Ctx) onParserSide(fn *ssa.Function, d int) bool {
+	if firstResultIsFlight(fn) {
+		return true
+	}
+	if d >= 3 {
+		return false
+	}
+	for _, s := range c.CallsToName(short(fn)) {
+		if s.Fn != fn && inModule(s.Fn) && c.onParserSide(s.Fn, d+1) {
+			return true
+		}
+	}
+	return false
+}
+
+// ruleVersionIsHighestCommon (C11): the negotiated protocol version is the highest one both sides
+// allow, whatever order the peer listed its versions in: in the selector, no successful exit is
+// reachable from inside the loop over the peer's list without returning to the loop header (the
+// first acceptable element of the peer's list does not end the scan), and every call site hands it
+// the configured minimum and maximum.
+func ruleVersionIsHighestCommon(c *Ctx, r *Report) {
+	const rule = "version-is-highest-common"
+	fn := c.need(r, rule, "internal/config.SelectVersion")
+	if fn == nil {
+		return
+	}
+	r.Sites += len(fn.Blocks)
+	if len(fn.Params) == 0 {
+		r.Unk(rule, short(fn), c.pos(fn.Pos()), "no parameters")
+		return
+	}
+	peer := fn.Params[0]
+	n := 0
+	for _, l := range naturalLoops(fn) {
+		overPeer := false
+		for b := range l.blocks {
+			for _, in := range b.Instrs {
+				switch x := in.(type) {
+				case *ssa.IndexAddr:
+					overPeer = overPeer || x.X == ssa.Value(peer)
+				case *ssa.Index:
+					overPeer = overPeer || x.X == ssa.Value(peer)
+				}
+			}
+		}
+		if !overPeer {
+			continue
+		}
+		n++
+		leak := ""
+		for _, su := range l.header.Succs {
+			if !l.blocks[su] {
+				continue
+			}
+			w := &Walk{Fn: fn}
+			w.Visit = func(in ssa.Instruction, _ Env) bool { return in.Block() != l.header }
+			w.FromEdge(l.header, su)
+			for _, ro := range w.Returns {
+				last := len(ro.Raw) - 1
+				if last < 0 {
+					continue
+				}
+				if k, isK := constBool(ro.Raw[last]); isK && !k {
+					continue
+				}
+				if ro.Vals[last].Kind == 1 && !ro.Vals[last].B {
+					continue
+				}
+				leak = c.ipos(ro.Ret)
+			}
+		}
+		r.Check(leak == "", rule, short(fn)+":scan-complete", c.pos(fn.Pos()), "a version is returned only after the whole list of the peer was examined", "a version is returned from inside the loop over the peer's list ("+leak+"): the first acceptable version in the peer's order is chosen, so a peer that lists an older version first is given it although both sides allow a newer one")
+	}
+	if n == 0 {
+		r.Unk(rule, short(fn), c.pos(fn.Pos()), "no loop over the peer's version list: rule cannot be decided")
+	}
+	sites := 0
+	for _, s := range c.CallsToName("internal/config.SelectVersion") {
+		call, ok := s.Call.(*ssa.Call)
+		if !ok || len(call.Call.Args) < 3 || !inModule(s.Fn) {
+			continue
+		}
+		sites++
+		_, f1, _, ok1 := fieldLoad(call.Call.Args[1])
+		_, f2, _, ok2 := fieldLoad(call.Call.Args[2])
+		r.Check(ok1 && ok2 && f1 == "MinVersion" && f2 == "MaxVersion", rule, short(s.Fn)+":range", c.ipos(call), "selected within [cfg.MinVersion, cfg.MaxVersion]", "the version is not selected within the configured [MinVersion, MaxVersion]")
+	}
+	r.Floor(rule, sites, 2)
 }
